@@ -3,8 +3,8 @@
 module F = Fitmodel
 open Conv
 
-let handlers : (string, string list -> string) Hashtbl.t = Hashtbl.create 64
-let register name f = Hashtbl.replace handlers name f
+let handlers = Registry.handlers
+let register = Registry.register
 
 let () =
   register "ping" (fun _ -> "pong");
